@@ -1,3 +1,4 @@
+use crate::ext::float::ordered_sum;
 use crate::{Error, ErrorKind, Graph};
 use std::collections::{HashMap, HashSet};
 use std::fmt::Display;
@@ -100,7 +101,7 @@ where
                     convert_values_to_f64::<T, A>(graph.get_in_degree_for_all_nodes().unwrap()),
                 ),
             };
-            let m: f64 = outd.values().sum();
+            let m: f64 = ordered_sum(outd.values().cloned());
             let norm = (1.0 / m).powf(2.0);
             (outd, ind, m, norm)
         }
@@ -109,7 +110,7 @@ where
                 true => graph.get_weighted_degree_for_all_nodes(),
                 false => convert_values_to_f64::<T, A>(graph.get_degree_for_all_nodes()),
             };
-            let deg_sum: f64 = deg.values().sum();
+            let deg_sum: f64 = ordered_sum(deg.values().cloned());
             let m = deg_sum / 2.0;
             let norm = (1.0 / deg_sum).powf(2.0);
             (deg.clone(), deg, m, norm)
@@ -120,12 +121,12 @@ where
         let subgraph = graph.get_subgraph(&comm_vec);
         let subgraph_edges = subgraph.get_all_edges();
         let subgraph_edges_weight = match weighted {
-            true => subgraph_edges.iter().map(|e| e.weight).sum(),
+            true => ordered_sum(subgraph_edges.iter().map(|e| e.weight)),
             false => subgraph_edges.len() as f64,
         };
-        let out_degree_sum: f64 = community.iter().map(|n| out_degree.get(n).unwrap()).sum();
+        let out_degree_sum: f64 = ordered_sum(community.iter().map(|n| *out_degree.get(n).unwrap()));
         let in_degree_sum = match graph.specs.directed {
-            true => community.iter().map(|n| in_degree.get(n).unwrap()).sum(),
+            true => ordered_sum(community.iter().map(|n| *in_degree.get(n).unwrap())),
             false => out_degree_sum,
         };
         subgraph_edges_weight / m
